@@ -1292,3 +1292,74 @@ def gen_ctxlife(seed, mode="loop"):
     sc.meta["max_ufd"] = 1
     finalize_main(sc)
     return sc
+
+
+def gen_tokenbucket(seed, mode="loop"):
+    """C18: bursts of cheap token-consuming calls on a throttled module from driver steps (the loop keeps refilling), re-
+    configuration with user timers registered, exhaustion followed by a long pause and a probe, rate 0 and stop/start"""
+    r = random.Random(seed * 53 + 31)
+    sc = Sc(mode, "tokenbucket seed=%d" % seed)
+    driven_skeleton(sc)
+    T, K = 1, 2
+    sc.mod(T, "throttled", 0, 0)
+    sc.mod(K, "sink", 0, 0)
+    sc.cb(T, "evt", "*", [])
+    sc.cb(K, "evt", "*", [])
+    sc.main += [("reg", T), ("reg", K), ("start", T), ("start", K)]
+    tp = [sc.topic(t) for t in ("alpha", "beta", "gamma", "ab1")]
+    utmr = r.sample([7000000, 9000000, 11000000, 13000000], r.randrange(0, 4))
+    for ns in utmr:
+        sc.main.append(("tmr_reg", T, ns, 0, sc.ud(), 0))
+    sc.meta["tb_probes"] = [(T, 0)]
+    steps = []
+
+    def cheap():
+        x = r.random()
+        if x < 0.3:
+            return ("bsize", T, 0)
+        if x < 0.5:
+            return ("tell", T, K, sc.pay(), 0)
+        if x < 0.65:
+            return ("sub", T, r.choice(tp), 0, sc.ud())
+        if x < 0.75:
+            return ("unsub", T, r.choice(tp))
+        if x < 0.85:
+            return ("become", T, r.randrange(4))
+        if x < 0.92:
+            return ("unbecome", T)
+        return ("publish", T, r.choice(tp), sc.pay(), 0)
+
+    rate = r.choice([100, 200, 500, 1000])
+    burst = r.choice([1, 2, 3, 5, 10, 20])
+    steps.append([("tb", T, rate, burst)])
+    for phase in range(r.randrange(2, 7)):
+        x = r.random()
+        if x < 0.45:
+            steps.append([cheap() for _ in range(r.randrange(1, 3 * burst + 8))])
+        elif x < 0.6:
+            # exhaust, pause > 25 periods while the loop keeps dispatching, then probe
+            steps.append([cheap() for _ in range(2 * burst + 6)])
+            per_us = 1000000 // rate
+            for _ in range(10):
+                steps.append([("sleep", max(300, 3 * per_us))])
+            steps.append([("bsize", T, 77)])
+            steps.append([cheap() for _ in range(r.randrange(1, 2 * burst + 4))])
+        elif x < 0.75:
+            rate = r.choice([100, 200, 500, 1000])
+            burst = r.choice([1, 2, 3, 5, 10, 20])
+            steps.append([("tb", T, rate, burst)])
+            if utmr and r.random() < 0.5:
+                steps.append([("tmr_dereg", T, r.choice(utmr))])
+        elif x < 0.87:
+            steps.append([("tb", T, 0, 0)] + [cheap() for _ in range(3 * burst + 22)])
+            steps.append([("tb", T, rate, burst)])
+        else:
+            steps.append([("stop", T), ("start", T)] + [cheap() for _ in range(3 * burst + 22)])
+            for ns in utmr:
+                steps[-1].append(("tmr_reg", T, ns, 0, sc.ud(), 0))
+            steps.append([("tb", T, rate, burst)])
+        steps.append([("sleep", r.choice([0, 500, 2000]))])
+    steps.append([])
+    driven_finish(sc, steps, rng=r)
+    finalize_main(sc)
+    return sc
